@@ -160,7 +160,7 @@ def validChoice (cfg : Cfg) (st : St) (scene e : Nat) (n : Nat) (table : List En
   -- optimality over the detections that have entries (others can only be unmatched)
   (let qs := queries es
    let asg := qs.map (fun q => (conts.getD (q - 1) none))
-   objective es cfg.thr qs asg == best es cfg.thr)
+   objective es cfg.thr qs asg == bestOf es cfg.thr)
 
 /-- the per-scene part of `predict`: advance the scene's epoch, validate the choice, apply it -/
 def predictScene (cfg : Cfg) (st : St) (scene : Nat) (dets : List Det) (table : List Entry) (picks : List Pick)
